@@ -133,10 +133,17 @@ def observe(world, alg, enc, curve, tok) -> dict:
         ent = (tok.get("recipients") or [tok])[0]
         hdr = {**prot, **(tok.get("unprotected") or {}), **(ent.get("header") or {})}
     plan = {"recipients": [{"alg": alg, "key": gk.key_to_record(ref), "header": None, "kid": None}], "sender": gk.key_to_record(sref) if sref else None}
-    r = jweplan.ref_decrypt(tok, plan, strict=True)
-    if r["plaintext"] != b"same plaintext":
-        raise HarnessError("reference decrypts other plaintext")
-    obs = {"iv": iv, "cek": r["cek"]}
+    obs = {"iv": iv}
+    try:
+        try:
+            r = jweplan.ref_decrypt(tok, plan, strict=True)
+        except rjwe.Reject:
+            r = jweplan.ref_decrypt(tok, plan, strict=False)
+        if r["plaintext"] != b"same plaintext":
+            raise HarnessError("reference decrypts other plaintext")
+        obs["cek"] = r["cek"]
+    except rjwe.Reject as e:
+        obs["unreadable"] = str(e)       # reported by check_history; the values visible in the header are still judged
     if "epk" in hdr:
         obs["epk"] = hdr["epk"]
     if alg in rjwe.GCMKW_SIZE:
@@ -156,10 +163,12 @@ def check_history(records, f, where):
         cek_len, iv_len = rjwe.ENCS[enc]
         if len(obs["iv"]) != iv_len:
             f[f"C18:iv-size:{enc}"] = f"IV of {len(obs['iv'])} octets for {enc}"
-        if len(obs["cek"]) != cek_len:
+        if "unreadable" in obs:
+            f[f"C18:token-unreadable-for-reference:{alg}"] = f"the reference cannot open joserfc's {alg}/{enc} token: {obs['unreadable']}"
+        elif len(obs["cek"]) != cek_len:
             f[f"C18:cek-size:{enc}"] = f"CEK of {len(obs['cek'])} octets for {enc}"
         groups[("iv", iv_len)].append(obs["iv"])
-        if alg != "dir":
+        if alg != "dir" and "cek" in obs:
             groups[("cek", cek_len)].append(obs["cek"])
         if "epk" in obs:
             epk = obs["epk"]
@@ -349,6 +358,25 @@ def run_keygen(n, f, ctx):
         ctx.count("keys-generated")
     if len(set(vals)) != len(vals):
         f["C18:repeated-generated-key:RSA"] = "two generated RSA keys are equal"
+    # key sets generated in one call: every member is a key of its own
+    from joserfc.jwk import KeySet
+    for kty, arg, member in (("oct", 128, "k"), ("oct", 256, "k"), ("EC", "P-256", "d"), ("EC", "P-521", "d"), ("OKP", "Ed25519", "d"), ("OKP", "X448", "d"), ("RSA", 1024, "n")):
+        for count in ((2, 4) if kty != "RSA" else (2,)):
+            for how in ("keyword", "default"):
+                ks = KeySet.generate_key_set(kty, arg, count=count) if how == "keyword" else KeySet.generate_key_set(kty, arg)
+                want = count if how == "keyword" else 4
+                ds = [k.as_dict(private=True) for k in ks.keys]
+                ctx.count("keys-generated", len(ds))
+                if len(ds) != want:
+                    f[f"C18:generated-key-set-size:{kty}"] = f"{len(ds)} keys, {want} requested"
+                if len({d[member] for d in ds}) != len(ds) or len({id(k) for k in ks.keys}) != len(ds):
+                    f[f"C18:repeated-generated-key:key-set:{kty}"] = f"generate_key_set({kty!r}, {arg!r}, count={want}) holds {len({d[member] for d in ds})} distinct keys"
+                if kty == "oct" and any(len(rb.decode(d["k"])) * 8 != arg for d in ds):
+                    f[f"C18:oct-key-size:key-set:{arg}"] = "key of another size in a generated set"
+                if kty in ("EC", "OKP") and any(d.get("crv") != arg for d in ds):
+                    f[f"C18:generated-key-curve:key-set:{arg}"] = "key on another curve in a generated set"
+                if kty == "RSA":
+                    break
 
 
 def shards(tier):
